@@ -239,14 +239,24 @@ func (c *Conn) IsClosed() bool {
 // Caller holds sim.mu (or is the scheduler at quiescence).
 func (c *Conn) availLocked(now time.Time) (n int, headErr bool, next time.Time) {
 	st := c.in
-	if c.Endless && c.endlessArmed && len(st.segs) == 0 && !st.eof {
-		// a sender that never stops: whenever the queue runs dry there is more
-		junk := make([]byte, 2048) // more than any read asks for: every read is filled to the brim
-		for i := range junk {
-			junk[i] = byte(0xa5 ^ (c.endlessN + i))
+	if c.Endless && c.endlessArmed && !st.eof {
+		// a sender that never stops: there is always more queued than any read asks for, so every read is filled to the brim
+		queued := 0
+		for i := range st.segs {
+			queued += len(st.segs[i].data)
 		}
-		c.endlessN += len(junk)
-		st.segs = append(st.segs, seg{data: junk})
+		if queued < 4096 {
+			junk := make([]byte, 4096)
+			for i := range junk {
+				junk[i] = byte(0xa5 ^ (c.endlessN + i))
+			}
+			c.endlessN += len(junk)
+			if k := len(st.segs); k > 0 && st.segs[k-1].err == nil {
+				st.segs[k-1].data = append(st.segs[k-1].data, junk...)
+			} else {
+				st.segs = append(st.segs, seg{data: junk})
+			}
+		}
 	}
 	st.headAt(now)
 	for i := range st.segs {
